@@ -59,12 +59,12 @@ Definition rank (np : nops) (s : shared) (t : thread) : nat :=
   | IvCas => 108 + stale s t
   | IvLoad => 109
   | CNop k => 111 + k
-  | CStore => 113 + nmax np
-  | CPre => 114 + nmax np
-  | CIdle => 115 + nmax np
+  | CStore => 213 + nmax np   (* the store of a full file adds fullw = 100 *)
+  | CPre => 214 + nmax np
+  | CIdle => 215 + nmax np
   end.
 
-Definition rank_bound (np : nops) : nat := 216 + nmax np.
+Definition rank_bound (np : nops) : nat := 316 + nmax np.
 
 Definition live (t : thread) : bool := match t_pc t with Done | Crash => false | _ => true end.
 
@@ -73,7 +73,7 @@ Proof. unfold phi. destruct (w_have (s_word s)), (Z.eqb (w_extra (s_word s)) 0);
 
 Ltac rk Hpc :=
   unfold rank, stale, cell_stale, goto_nops, after_release, to_close in *;
-  cbn [t_pc t_st t_old t_amt t_kind t_prev t_tgt with_pc with_st with_old with_amt] in *;
+  cbn [t_pc t_st t_old t_amt t_kind t_prev t_prev2 t_tgt with_pc with_st with_old with_amt] in *;
   try rewrite Hpc in *.
 
 (* phi after the word operations *)
@@ -104,24 +104,27 @@ Proof. unfold stale. destruct (Z.eqb _ _); lia. Qed.
 Lemma cell_stale_le s t : (cell_stale s t <= 2)%nat.
 Proof. unfold cell_stale. destruct (s_ptr s); [destruct (Z.eqb _ _)|]; lia. Qed.
 
-(* no step refills the file *)
-Lemma full_mono np s t s' t' : step_thread np s t = (s', t') -> s_full s' = true -> s_full s = true.
+(* only the store of a changer that opens an existing full file sets s_full *)
+Lemma full_mono np s t s' t' : step_thread np s t = (s', t') -> t_pc t <> CStore -> s_full s' = true -> s_full s = true.
 Proof.
-  unfold step_thread. intros H.
-  destruct (t_pc t);
+  unfold step_thread. intros H Hn.
+  destruct (t_pc t); try (exfalso; apply Hn; reflexivity);
     repeat match goal with
            | H : (if ?c then _ else _) = _ |- _ => destruct c eqn:?
            | H : match ?c with Some _ => _ | None => _ end = _ |- _ => destruct c eqn:?
-           | H : match ?c with NewFile => _ | SameFile => _ | NoFile => _ end = _ |- _ => destruct c
+           | H : match ?c with NewFile => _ | SameFile => _ | NoFile => _ | FullFile => _ end = _ |- _ => destruct c
            end;
     injection H as <- _; cbn; auto; try discriminate; try congruence.
 Qed.
 
-Lemma fullw_le np s t s' t' : step_thread np s t = (s', t') -> (fullw s' <= fullw s)%nat.
+Lemma fullw_le np s t s' t' : step_thread np s t = (s', t') -> t_pc t <> CStore -> (fullw s' <= fullw s)%nat.
 Proof.
-  intros H. pose proof (full_mono np s t s' t' H) as M. unfold fullw.
+  intros H Hn. pose proof (full_mono np s t s' t' H Hn) as M. unfold fullw.
   destruct (s_full s'); [rewrite (M eq_refl); lia | destruct (s_full s); lia].
 Qed.
+
+Lemma fullw_bound s : (fullw s <= 100)%nat.
+Proof. unfold fullw. destruct (s_full s); lia. Qed.
 
 (* the rank of the stepping thread strictly decreases *)
 Lemma rank_decreases np s t s' t' :
@@ -131,9 +134,11 @@ Lemma rank_decreases np s t s' t' :
   (rank np s' t' < rank np s t)%nat.
 Proof.
   intros H Hl Hw Hnp. pose proof (fullw_le np s t s' t' H) as Hf.
+  pose proof (fullw_bound s) as Fb. pose proof (fullw_bound s') as Fb'.
   unfold step_thread in H. unfold live in Hl.
   pose proof (phi_le s) as Pl.
   destruct (t_pc t) eqn:Hpc; try discriminate.
+  all: try (assert (Hf' := Hf ltac:(intro X; discriminate X)); clear Hf; rename Hf' into Hf).
   - (* AIdle *) injection H as <- <-. rk Hpc. lia.
   - (* ALoad *) injection H as <- <-. unfold rank. rewrite Hpc. cbn [t_pc with_st]. rewrite stale_fresh. lia.
   - (* ACas *)
@@ -206,9 +211,8 @@ Proof.
       change (phi (set_ptr s (s_cur s))) with (phi s). change (fullw (set_ptr s (s_cur s))) with (fullw s).
       match goal with |- context [stale ?a ?b] => pose proof (stale_le a b) end. lia. }
     destruct (s_cur s) as [g0|] eqn:Ec; [|apply Plain; rewrite <- H; reflexivity].
-    destruct (t_prev t) eqn:Epv; [apply Plain; rewrite <- H; reflexivity|].
+    destruct (t_prev2 t) eqn:Epv; [apply Plain; rewrite <- H; reflexivity|].
     destruct (s_full s) eqn:Efu; [|apply Plain; rewrite <- H; reflexivity].
-    destruct (t_kind t) eqn:Ekd; cbn [andb] in H; [|apply Plain; rewrite <- H; reflexivity].
     injection H as <- <-. unfold rank. rewrite Hpc. cbn [t_pc]. unfold fullw. cbn [s_full]. rewrite Efu. lia.
   - (* GIvLoad *)
     destruct (w_have (s_word s)); injection H as <- <-; unfold rank; rewrite Hpc; cbn [t_pc with_st2 with_pc]; [|lia].
@@ -221,7 +225,7 @@ Proof.
     destruct (w_have (s_word s) || (0 <? w_readers (s_word s)) || (w_extra (s_word s) =? 0))%Z; injection H as <- <-;
       unfold rank; rewrite Hpc; cbn [t_pc with_pc]; lia.
   - (* GClose *)
-    destruct (t_prev t); injection H as <- <-; unfold rank; rewrite Hpc; cbn [t_pc with_pc].
+    destruct (t_prev2 t); injection H as <- <-; unfold rank; rewrite Hpc; cbn [t_pc with_pc].
     + match goal with |- context [stale ?a ?b] => pose proof (stale_le a b) end.
       match goal with |- context [phi ?a] => pose proof (phi_le a) end. lia.
     + match goal with |- context [stale ?a ?b] => pose proof (stale_le a b) end.
@@ -244,7 +248,7 @@ Proof.
     assert (G : forall k t0, (k <= nmax np)%nat -> t_pc t0 = Done -> forall s0, (rank np s0 (goto_nops t0 k IvLoad) < fullw s0 + 113 + nmax np)%nat).
     { intros k t0 Hk _ s0. destruct k; unfold goto_nops, rank; cbn [t_pc with_pc]; lia. }
     unfold rank at 2. rewrite Hpc.
-    destruct (t_tgt t); [| destruct (s_cur s); [destruct (s_tight s)|] |]; injection H as <- <-;
+    destruct (t_tgt t); [| destruct (s_cur s); [destruct (s_tight s)|] | |]; injection H as <- <-;
       try (eapply Nat.lt_le_trans; [apply G; [unfold nmax; lia | reflexivity] | lia]);
       unfold rank; cbn [t_pc with_pc]; lia.
   - (* CNop *) injection H as <- <-. destruct k; unfold rank; rewrite Hpc; cbn [t_pc with_pc]; lia.
